@@ -512,7 +512,46 @@ pub broadcast proof fn lemma_or_low5(a: u8, c: u8)
 pub broadcast proof fn lemma_and_msb(b: u8)
     ensures ((#[trigger] (b & 0x80u8)) == 0) <==> b < 128
 { assert(((b & 0x80u8) == 0u8) <==> b < 128u8) by (bit_vector); }
-pub broadcast group group_bits { lemma_shl4_u8, lemma_shl4_i32, lemma_or_low_nibble, lemma_and_0f, lemma_and_f0, lemma_and_1f, lemma_and_e0,
+// ---- further spellings of the same bit-field facts (false-alarm hardening, see DESIGN section 10)
+pub broadcast proof fn lemma_shr1_u8(h: u8)
+    ensures (#[trigger] (h >> 1u8)) == h / 2
+{ assert((h >> 1u8) == h / 2u8) by (bit_vector); }
+pub broadcast proof fn lemma_shr2_u8(h: u8)
+    ensures (#[trigger] (h >> 2u8)) == h / 4
+{ assert((h >> 2u8) == h / 4u8) by (bit_vector); }
+pub broadcast proof fn lemma_shr3_u8(h: u8)
+    ensures (#[trigger] (h >> 3u8)) == h / 8
+{ assert((h >> 3u8) == h / 8u8) by (bit_vector); }
+pub broadcast proof fn lemma_shr4_u8(h: u8)
+    ensures (#[trigger] (h >> 4u8)) == h / 16
+{ assert((h >> 4u8) == h / 16u8) by (bit_vector); }
+pub broadcast proof fn lemma_shr6_u8(h: u8)
+    ensures (#[trigger] (h >> 6u8)) == h / 64
+{ assert((h >> 6u8) == h / 64u8) by (bit_vector); }
+pub broadcast proof fn lemma_shr7_u8(h: u8)
+    ensures (#[trigger] (h >> 7u8)) == h / 128
+{ assert((h >> 7u8) == h / 128u8) by (bit_vector); }
+pub broadcast proof fn lemma_and_01_u8(h: u8)
+    ensures (#[trigger] (h & 0x01u8)) == h % 2
+{ assert((h & 0x01u8) == h % 2u8) by (bit_vector); }
+pub broadcast proof fn lemma_and_03_u8(h: u8)
+    ensures (#[trigger] (h & 0x03u8)) == h % 4
+{ assert((h & 0x03u8) == h % 4u8) by (bit_vector); }
+pub broadcast proof fn lemma_and_07_u8(h: u8)
+    ensures (#[trigger] (h & 0x07u8)) == h % 8
+{ assert((h & 0x07u8) == h % 8u8) by (bit_vector); }
+pub broadcast proof fn lemma_and_3f_u8(h: u8)
+    ensures (#[trigger] (h & 0x3fu8)) == h % 64
+{ assert((h & 0x3fu8) == h % 64u8) by (bit_vector); }
+pub broadcast proof fn lemma_and_7f_u8(h: u8)
+    ensures (#[trigger] (h & 0x7fu8)) == h % 128
+{ assert((h & 0x7fu8) == h % 128u8) by (bit_vector); }
+/// equivalent spellings of the nibble / 3-bit field extractions (so that a behaviour-preserving rewrite of the
+/// expression does not leave the proof without its bit-level fact)
+pub broadcast proof fn lemma_and_e0_shr5(h: u8)
+    ensures (#[trigger] ((h & 0xe0u8) >> 5u8)) == h / 32
+{ assert(((h & 0xe0u8) >> 5u8) == h / 32u8) by (bit_vector); }
+pub broadcast group group_bits { lemma_shr1_u8, lemma_shr2_u8, lemma_shr3_u8, lemma_shr4_u8, lemma_shr6_u8, lemma_shr7_u8, lemma_and_01_u8, lemma_and_03_u8, lemma_and_07_u8, lemma_and_3f_u8, lemma_and_7f_u8, lemma_and_e0_shr5, lemma_shl4_u8, lemma_shl4_i32, lemma_or_low_nibble, lemma_and_0f, lemma_and_f0, lemma_and_1f, lemma_and_e0,
     lemma_shr5, lemma_shl5, lemma_or_low5, lemma_and_msb }
 /// core: `impl<T> From<T> for Option<T>` and `impl<T> From<T> for T` (A5, assumed)
 pub broadcast axiom fn axiom_into_option<T>(x: T)
